@@ -854,3 +854,90 @@ Qed.
 Lemma check_forest_paths_lemma : forall f w,
   check_forest w f = true <-> forall p, In p (forest_paths f) -> check_path w p = true.
 Proof. intros f w. rewrite (proj2 check_tree_forest_paths). apply forallb_forall. Qed.
+
+(* ---------- the registry never looks at the identity of a class object, only at its hash ---------- *)
+Section ObjectRenaming.
+  Context (rid : N) (fmt : str -> option str) (f : N * N -> N * N) (Hf : forall c, cls_hash (f c) = cls_hash c).
+
+  Definition ren_entry (v : (N * N) * str) : (N * N) * str := (f (fst v), snd v).
+  Definition ren_state (r : rstate) : rstate := {| reg := smap ren_entry (reg r); tgs := tgs r |}.
+  Definition ren_op (o : op) : op := match o with ORegister n c => ORegister n (f c) | _ => o end.
+  Definition ren_out (x : out) : out :=
+    match x with RCls c => RCls (f c) | RAll d => RAll (smap f d) | _ => x end.
+
+  Lemma same_class_ren a b : same_class (f a) (f b) = same_class a b.
+  Proof. unfold same_class. pose proof (Hf a) as Ha. pose proof (Hf b) as Hb. unfold cls_hash in *. rewrite Ha, Hb. reflexivity. Qed.
+
+  Lemma skeys_smap {V W} (g : V -> W) (l : list (str * V)) : skeys (smap g l) = skeys l.
+  Proof. unfold skeys, smap. rewrite map_map. reflexivity. Qed.
+
+  Lemma contents_ren r : contents (ren_state r) = smap f (contents r).
+  Proof. unfold contents, ren_state, smap. simpl. rewrite !map_map. reflexivity. Qed.
+
+  Lemma unregister_ren n r l :
+    unregister n (ren_state r) l = let '(r', l', x) := unregister n r l in (ren_state r', l', ren_out x).
+  Proof.
+    unfold unregister. cbn [ren_state reg tgs]. rewrite (slookup_smap ren_entry).
+    destruct (slookup n (reg r)) as [[c t]|]; cbn [option_map ren_entry fst snd]; [|reflexivity].
+    destruct (slookup t (tgs r)) as [ns|]; [|reflexivity].
+    destruct (nmem n ns); cbn [negb]; [|reflexivity].
+    unfold ren_state. cbn [reg tgs ren_out]. rewrite (smap_sdel ren_entry). reflexivity.
+  Qed.
+
+  Lemma unregister_all_ren ns : forall r l,
+    unregister_all ns (ren_state r) l = let '(r', l', e) := unregister_all ns r l in (ren_state r', l', e).
+  Proof.
+    induction ns as [|n ns IH]; intros r l; cbn [unregister_all]; [reflexivity|].
+    rewrite unregister_ren. destruct (unregister n r l) as [[r1 l1] x].
+    destruct x; cbn [ren_out]; try apply IH. reflexivity.
+  Qed.
+
+  Lemma step_ren o r l :
+    step rid fmt (ren_state r) l (ren_op o) = let '(r', l', x) := step rid fmt r l o in (ren_state r', l', ren_out x).
+  Proof.
+    destruct o as [n c|n| |n|]; cbn [step ren_op].
+    - unfold register. cbn [ren_state reg tgs]. rewrite (slookup_smap ren_entry).
+      assert (G : match fmt n with
+                  | None => (ren_state r, l, RErr EValueError)
+                  | Some t =>
+                      if nmem t (prot l) then (ren_state r, l, RErr ETagProtected)
+                      else ({| reg := sset n (f c, t) (smap ren_entry (reg r));
+                               tgs := sset t (nadd n match slookup t (tgs r) with Some ns => ns | None => [] end) (tgs r) |},
+                            {| ltags := sset t (OComp rid) (ltags l); prot := prot l |}, RNone)
+                  end =
+                  let '(r', l', x) := match fmt n with
+                                      | None => (r, l, RErr EValueError)
+                                      | Some t =>
+                                          if nmem t (prot l) then (r, l, RErr ETagProtected)
+                                          else ({| reg := sset n (c, t) (reg r);
+                                                   tgs := sset t (nadd n match slookup t (tgs r) with Some ns => ns | None => [] end) (tgs r) |},
+                                                {| ltags := sset t (OComp rid) (ltags l); prot := prot l |}, RNone)
+                                      end in (ren_state r', l', ren_out x)).
+      { destruct (fmt n) as [t|]; [|reflexivity]. destruct (nmem t (prot l)); [reflexivity|].
+        unfold ren_state. cbn [reg tgs ren_out]. rewrite (smap_sset ren_entry). reflexivity. }
+      destruct (slookup n (reg r)) as [[c' t']|]; cbn [option_map ren_entry fst snd]; [|exact G].
+      rewrite same_class_ren. destruct (same_class c' c); [exact G | reflexivity].
+    - apply unregister_ren.
+    - unfold clear. rewrite (skeys_smap ren_entry (reg r)) at 1. cbn [ren_state reg]. fold (ren_state r).
+      replace (skeys (smap ren_entry (reg r))) with (skeys (reg r)) by (symmetry; apply skeys_smap).
+      rewrite unregister_all_ren. destruct (unregister_all (skeys (reg r)) r l) as [[r1 l1] [e|]]; reflexivity.
+    - unfold get. cbn [ren_state reg]. rewrite (slookup_smap ren_entry).
+      destruct (slookup n (reg r)) as [[c t]|]; reflexivity.
+    - rewrite contents_ren. reflexivity.
+  Qed.
+
+  Lemma run_ren ops : forall r l,
+    run rid fmt (ren_state r) l (map ren_op ops) =
+    let '(r', l', xs) := run rid fmt r l ops in (ren_state r', l', map ren_out xs).
+  Proof.
+    induction ops as [|o ops IH]; intros r l; cbn [run map]; [reflexivity|].
+    rewrite step_ren. destruct (step rid fmt r l o) as [[r1 l1] x]. rewrite IH.
+    destruct (run rid fmt r1 l1 ops) as [[r2 l2] xs]. reflexivity.
+  Qed.
+End ObjectRenaming.
+
+Lemma object_renaming_lemma : forall rid fmt (f : N * N -> N * N) l0 ops,
+  (forall c, cls_hash (f c) = cls_hash c) ->
+  run rid fmt rempty l0 (map (ren_op f) ops) =
+  let '(r, l, xs) := run rid fmt rempty l0 ops in (ren_state f r, l, map (ren_out f) xs).
+Proof. intros rid fmt f l0 ops Hf. exact (run_ren rid fmt f Hf ops rempty l0). Qed.
